@@ -32,6 +32,10 @@ type ComputeIn struct {
 	Freq       *int   `json:"freq,omitempty"`
 	UseWithIt  bool   `json:"use_with_iterations,omitempty"` // Max==Min passed through WithIterations
 	Repeat     int    `json:"repeat,omitempty"`              // extra runs on the very same input objects before the observed one
+	// Reweigh: the matrix object is first computed on with other weights on the same arcs (each row's values
+	// rotated), then given its real weights in place (1) or by a Merge (2): the observed run must see the matrix
+	// as it is now (no stale transpose or other memo keyed by the object, its shape or its number of entries)
+	Reweigh int `json:"reweigh,omitempty"`
 	Fuel       int    `json:"fuel"`
 	WatchdogMs int    `json:"watchdog_ms"`
 }
@@ -198,6 +202,31 @@ func runCompute(parent context.Context, in *ComputeIn) (obs ComputeObs) {
 	}
 	if in.Freq != nil {
 		opts = append(opts, basic.WithCheckFreq(*in.Freq))
+	}
+	if in.Reweigh > 0 {
+		func() {
+			defer func() { _ = recover() }()
+			for _, row := range c.Entries {
+				if len(row) > 1 {
+					first := row[0].Value
+					for k := 0; k+1 < len(row); k++ {
+						row[k].Value = row[k+1].Value
+					}
+					row[len(row)-1].Value = first
+				}
+			}
+			_, _ = basic.Compute(newFuelCtx(context.Background(), 400), c, in.P.sparse(), float64(in.A), float64(in.E))
+			orig := in.C.csr()
+			if in.Reweigh == 2 {
+				c.Merge(&orig.CSMatrix)
+			} else {
+				for i, row := range c.Entries {
+					for k := range row {
+						row[k].Value = orig.Entries[i][k].Value
+					}
+				}
+			}
+		}()
 	}
 	for i := 0; i < in.Repeat; i++ { // a pure function of its inputs: earlier calls must not matter
 		func() {
